@@ -31,6 +31,7 @@ var checks = map[string]func(*ctx){
 	"C14": runC14,
 	"C15": runC15,
 	"C16": runC16,
+	"C17": runC17,
 }
 
 func main() {
@@ -42,6 +43,16 @@ func main() {
 		cmdRun(os.Args[2:])
 	case "replay":
 		cmdReplay(os.Args[2:])
+	case "try":
+		// harness try '<program>' ['<json input>'] — run the real implementation only
+		var in interface{}
+		if len(os.Args) > 3 {
+			if err := json.Unmarshal([]byte(os.Args[3]), &in); err != nil {
+				fmt.Fprintln(os.Stderr, err)
+				os.Exit(2)
+			}
+		}
+		fmt.Println(goEval(os.Args[2], in).outcome)
 	default:
 		usage()
 	}
